@@ -192,6 +192,46 @@ def codecs(ctx, prog):
                               "self._add(self._outputs, [Output.deserialize_from(stream) for _ in range(output_count)])",
                               "stream = BCDataStream(self._raw)"))
     ctx.ob("C05-D1/DEP", ok, f.site(), "values read land in version / segwit flag / inputs / outputs / locktime, from the transaction's own raw bytes", func=f.qualname)
+    # ---- what the readers (and the builders) hand to the constructors is what the writers later take from the fields
+    why = "the value later serialised is the value given (0 and None are different values)"
+    R.ctor_stores(ctx, "C05-D1/STORE", f"{T}.Input.__init__", {"txo_ref": "txo_ref", "sequence": "sequence"}, why, defaults={"sequence": 0xFFFFFFFF})
+    R.ctor_stores(ctx, "C05-D1/STORE", f"{T}.Output.__init__", {"amount": "amount", "script": "script"}, why)
+    R.ctor_stores(ctx, "C05-D1/STORE", f"{T}.InputOutput.__init__", {"tx_ref": "tx_ref", "position": "position"}, why)
+    R.ctor_stores(ctx, "C05-D1/STORE", f"{T}.TXORef.__init__", {"tx_ref": "tx_ref", "position": "position"}, why)
+    R.ctor_stores(ctx, "C05-D1/STORE", f"{T}.Transaction.__init__", {"version": "version", "locktime": "locktime", "_raw": "raw"}, why, defaults={"version": 1, "locktime": 0, "raw": None})
+    ii = ctx.fa(f"{T}.Input.__init__")
+    sp = [c for c in ii.calls() if R._is_super_call(c, "__init__")]
+    ok = len(sp) == 1 and [dotted(a) for a in sp[0].args] == ["tx_ref", "position"] and not sp[0].keywords
+    ctx.ob("C05-D1/STORE", ok, ii.site(), "Input hands (tx_ref, position) — its own place in a transaction, not the spent outpoint — to the base constructor", func=ii.fi.qualname, key="C05-D1/STORE|Input|super")
+    # the reader: which value goes to which constructor parameter (the two u32 reads — outpoint index and sequence — are told apart by position)
+    rd = ctx.fa(f"{T}.Input.deserialize_from")
+    cl = [c for c in rd.calls() if dotted(c.func) == "cls"]
+    ok = len(cl) == 1
+    if ok:
+        params = [p for p in ii.fi.params() if p != "self"]
+        bound = dict(zip(params, cl[0].args))
+        bound.update({k.arg: k.value for k in cl[0].keywords})
+        reads = [c for c in R.ordered_calls(rd) if isinstance(c.func, ast.Attribute) and c.func.attr.startswith("read") and dotted(c.func.value) == "stream"]
+
+        def origin(e, depth=2):
+            """the stream reads an argument's value comes from (through local names) — a single index, or a tuple when several"""
+            got = {i for i, r in enumerate(reads) if any(x is r for x in ast.walk(e))}
+            if depth:
+                for nm in {x.id for x in ast.walk(e) if isinstance(x, ast.Name) and isinstance(x.ctx, ast.Load)}:
+                    ds = [s for s in rd.stmts(ast.Assign) if len(s.targets) == 1 and dotted(s.targets[0]) == nm]
+                    if len(ds) == 1:
+                        o = origin(ds[0].value, depth - 1)
+                        got |= set(o) if isinstance(o, tuple) else ({o} if o is not None else set())
+            return None if not got else next(iter(got)) if len(got) == 1 else tuple(sorted(got))
+        seq_i = origin(bound["sequence"]) if "sequence" in bound else None
+        ok = set(bound) == {"txo_ref", "script", "sequence"} and len(reads) == 4 and seq_i == 3 and origin(bound["script"]) in (2, (0, 2))
+        tr = bound.get("txo_ref")
+        if isinstance(tr, ast.Name):
+            ds = [s for s in rd.stmts(ast.Assign) if len(s.targets) == 1 and dotted(s.targets[0]) == tr.id]
+            tr = ds[0].value if len(ds) == 1 else tr
+        ok = ok and isinstance(tr, ast.Call) and call_name(tr) == "TXORef" and len(tr.args) == 2 and origin(tr.args[1]) == 1 and origin(tr.args[0]) == 0
+    ctx.ob("C05-D1/STORE", ok, rd.site(), "Input reader: read #1 → outpoint hash, #2 → outpoint index, #3 → script, #4 → the `sequence` parameter; nothing else is passed", func=rd.fi.qualname,
+           key="C05-D1/STORE|Input.deserialize_from|binding")
 
 
 def txid(ctx, prog):
